@@ -37,6 +37,8 @@ type Solver struct {
 	Script    strings.Builder
 	KeepTrace bool
 	timeoutMs int
+	store     *Store
+	storeUses int
 	dead      bool
 }
 
